@@ -94,6 +94,11 @@ func genHostTable(rt *rapid.T) hostTableCase {
 	vipsDoc := obj{}
 	usedVip := map[string]bool{}
 	for _, p := range products {
+		if len(prodTags[p]) == 0 {
+			// a product without host tags does not count as defined for the cross-file checks
+			// (ServerDataConf.check); keep VIPs on products that own a tag
+			continue
+		}
 		n := rapid.IntRange(0, 2).Draw(rt, "nvip")
 		var l []string
 		for j := 0; j < n; j++ {
